@@ -1,5 +1,5 @@
 #!/bin/bash
-# usage: eval_seeded.sh <result-file> <seeded-name>:<PROP> ...
+# usage: eval_seeded.sh <result-file> <seeded-name>:<PROP>[:<only-substring>] ...
 # Evaluates seeded changes in isolation: scratch worktree of /repo HEAD at /tmp/mut/repo, scratch copy of
 # the harness crate (path dependency rewritten to the worktree), own target/log dirs. /repo is not touched.
 set -u
@@ -16,14 +16,15 @@ mkdir -p $ROOT/target $ROOT/logs $ROOT/replays
 for k in 0 1 2 3 4 5 6 7; do [ -d $ROOT/target/slot$k ] || cp -a /verif/target/slot0 $ROOT/target/slot$k; done
 export VERIF_ALT_ROOT=$ROOT VERIF_JOBS=6 VERIF_MEM_GB=30
 for spec in "$@"; do
-  name=${spec%%:*}; prop=${spec##*:}
+  IFS=: read -r name prop only <<< "$spec"
+  extra=""; [ -n "${only:-}" ] && extra="--only $only"
   git -C $ROOT/repo checkout -q -- . ; git -C $ROOT/repo clean -fdq
   if ! git -C $ROOT/repo apply /verif/seeded/$name/patch.diff 2>/dev/null; then echo "$name $prop APPLY-FAILED" >> $OUT; continue; fi
-  /verif/bin/check $prop --no-evidence > $ROOT/logs/eval-$name-$prop.txt 2>&1
+  /verif/bin/check $prop --no-evidence $extra > $ROOT/logs/eval-$name-$prop.txt 2>&1
   rc=$?
   viol=$(grep -c "^VIOLATION" $ROOT/logs/eval-$name-$prop.txt)
   inc=$(grep -c "^INCONCLUSIVE" $ROOT/logs/eval-$name-$prop.txt)
-  hs=$(grep "^harness " $ROOT/logs/eval-$name-$prop.txt | sed 's/^harness \([^:]*\):.*/\1/' | sort -u | tr '\n' ',' )
-  echo "$name $prop exit=$rc violations=$viol inconclusive=$inc harnesses=$hs" >> $OUT
+  hs=$(grep "^harness " $ROOT/logs/eval-$name-$prop.txt | sed 's/^harness \(c[0-9]*::[a-z_0-9]*\).*/\1/' | sort -u | tr '\n' ',' )
+  echo "$name $prop ${only:-all} exit=$rc violations=$viol inconclusive=$inc harnesses=$hs" >> $OUT
 done
 git -C $ROOT/repo checkout -q -- . ; git -C $ROOT/repo clean -fdq
